@@ -2215,12 +2215,17 @@ def rule_varint_constants(out, tier):
                         for rr in roots:
                             for vd in walk(rr):
                                 if vd.get("kind") == "VarDecl" and vd.get("name") == nm:
-                                    for ini in walk(vd):
-                                        if ini.get("kind") == "IntegerLiteral":
-                                            try:
-                                                return int(ini.get("value"))
-                                            except (TypeError, ValueError):
-                                                return None
+                                    # only a constant that IS a literal (`static const unsigned K = 0x80;`), not one computed from others
+                                    ini = [c for c in (vd.get("inner") or []) if isinstance(c, dict)]
+                                    ini = ini[-1] if ini else None
+                                    while ini is not None and ini.get("kind") in ("ImplicitCastExpr", "ParenExpr", "CXXStaticCastExpr", "ConstantExpr") and ini.get("inner"):
+                                        ini = [c for c in ini["inner"] if isinstance(c, dict)][-1]
+                                    if ini is not None and ini.get("kind") == "IntegerLiteral":
+                                        try:
+                                            return int(ini.get("value"))
+                                        except (TypeError, ValueError):
+                                            return None
+                                    return None
                         return None
 
                     def about_param(o):
